@@ -272,7 +272,7 @@ class Builder:
             v = st.target.id
             if v in self.track:
                 cur = self.env.get(v)
-                self.env[v] = _merge((cur or [("hole", ast.Name(id=v, ctx=ast.Load()), "")]) + of_expr(st.value, self._env()))
+                self.env[v] = _merge((cur if cur is not None else [("hole", ast.Name(id=v, ctx=ast.Load()), "")]) + of_expr(st.value, self._env()))
         elif isinstance(st, ast.Expr):
             w = is_write_call(st.value, self.handles)
             if w:
